@@ -100,7 +100,7 @@ func runC10(c *core.Ctx) {
 		t.Authenticator = RefVOPRF(is.suite, is.key, ref.TokenInput(t.TokenType, t.Nonce, t.Context, t.KeyID))
 		return t
 	}
-	ntok := c.Pick(1, 8)
+	ntok := c.Pick(1, 24)
 	for _, is := range all {
 		for ti := 0; ti < ntok; ti++ {
 			r := c.IdxRng("tok:"+is.name, int64(ti))
@@ -214,7 +214,7 @@ func runC10(c *core.Ctx) {
 		}
 	}
 	// honestly issued tokens through the real client flow
-	n := c.Pick(20, 300)
+	n := c.Pick(20, 3000)
 	for i := 0; i < n; i++ {
 		if !c.Next() {
 			continue
